@@ -397,6 +397,18 @@ func childMain(target string, seed int64, batch, from, n int, scratch string, so
 		curStart.Store(time.Now().UnixNano())
 		rej, alloc, dur, pv, stack := runOne(t, in)
 		curStart.Store(0)
+		// An executor with an oracle of its own (bounded work, no blocked goroutine) reports through
+		// the rejection text: "VIOLATION:<signature suffix>:<what>" / "INCONCLUSIVE:<why>".
+		if strings.HasPrefix(rej, "VIOLATION:") {
+			parts := strings.SplitN(rej, ":", 3)
+			if len(parts) == 3 {
+				w := witnessOf(target, batch, idx, in)
+				emit(childRec{Kind: "viol", Sig: fmt.Sprintf("c16/%s/%s", target, parts[1]),
+					What: fmt.Sprintf("%s: input #%d (op %s, %s): %s", target, idx, in.Op, in.Aux, parts[2]), Witness: w})
+			}
+		} else if strings.HasPrefix(rej, "INCONCLUSIVE:") {
+			emit(childRec{Kind: "inconc", Msg: fmt.Sprintf("input #%d (%s): %s", idx, in.Aux, strings.TrimPrefix(rej, "INCONCLUSIVE:"))})
+		}
 
 		stMu.Lock()
 		st.Inputs++
